@@ -162,6 +162,52 @@ def run(ctx):
             else:
                 r2.bad('file-list-sort-key', 'the file list is not sorted by FileId', loc=fn.loc(b))
 
+    # project membership is a function of the file *set* only: the list handed to salsa contains every registered source,
+    # whatever its text (membership is re-synced only when the set changes, so a content-dependent filter goes stale)
+    spi = [k for k in fx.fns if k.endswith('salsa_backend::sync_project_inputs')]
+    if not spi:
+        r2.bad('anchor-missing|sync_project_inputs', 'sync_project_inputs not found')
+    else:
+        bodies = [spi[0]] + [c for c in fx.closures_of(spi[0])]
+        r2.saw(len(bodies))
+        filt = None
+        for bid in bodies:
+            f2 = F(fx.fns[bid])
+            for b, nm, t in f2.calls(lambda n: re.search(r'Iterator::(filter|filter_map|take_while|skip_while|skip|take|step_by)$', n) is not None):
+                filt = (f2, b, nm)
+        reads_text = [x for bid in bodies for x in cg.reach([bid]) if re.search(r'SourceInput::text$', x)]
+        if filt or reads_text:
+            f2, b, nm = filt if filt else (F(fx.fns[spi[0]]), 0, '')
+            r2.bad('membership-independent-of-text', 'the project file list depends on %s: membership is only re-synced when the set of files changes, so a file that was left out because of its text (e.g. registered while blank) stays outside the project after the text changes, and answers differ from a fresh database' % (
+                ('a `%s` over the sources' % nm.split('::')[-1]) if filt else 'the text of the sources (SourceInput::text)'), loc=f2.loc(b))
+        else:
+            r2.ok('membership-independent-of-text')
+    # a fresh Database must be *unsynced*: its initial source revision differs from the initial synced revision of the
+    # salsa state, otherwise the first project query skips prepare_salsa_project and meets uninitialised project inputs
+    dd = [k for k in fx.fns if re.search(r'<trust_hir::db::queries::Database as core::default::Default>::default$', k)]
+    r2.saw()
+    if not dd:
+        r2.bad('anchor-missing|Database::default', 'Default for Database not found')
+    else:
+        fn = F(fx.fns[dd[0]])
+        init = None
+        for b, nm, t in fn.calls(lambda n: re.search(r'Atomic(U64|::<u64>)::new$|atomic::Atomic::<u64>::new$|AtomicU64::new$', n) is not None):
+            a = t['a'][0]
+            if a[0] == 'k':
+                m = re.search(r'(\d+)', a[2])
+                init = int(m.group(1)) if m else None
+        derived_default = any(im.get('derived') and dd[0] in [m for _, m in im['methods']] for im in fx.impls)
+        sd = [im for im in fx.impls if im.get('self', '').endswith('salsa_backend::SalsaState') and im.get('trait', '').endswith('Default')]
+        synced0 = 0      # derived Default for u64; a hand-written impl is looked at below
+        if sd and not sd[0].get('derived'):
+            synced0 = None
+        if derived_default or init is None:
+            r2.bad('fresh-database-is-unsynced', 'Database::default does not start source_revision at an explicit non-zero constant: with the salsa state also starting at 0 a query on a database that never received a file skips prepare_salsa_project and panics on the uninitialised project inputs', loc=fn.loc(0))
+        elif synced0 is not None and init == synced0:
+            r2.bad('fresh-database-is-unsynced', 'Database::default starts source_revision at %d, the same value SalsaState::default gives synced_revision: the first query skips the project preparation' % init, loc=fn.loc(0))
+        else:
+            r2.ok('fresh-database-is-unsynced', detail='source_revision starts at %s' % init)
+
     # ------------------------------------------------------------------ R3
     r3 = ctx.rule('C13.R3', 'no history- or process-dependent iteration order reaches a query input or answer', floor=5, floor_what='iterations over persistent hash containers')
     for k, rec in sorted(fx.fns.items()):
